@@ -39,19 +39,25 @@ Proof. exact (q_other_out_equiv ceqb ceqb_spec). Qed.
 Theorem C15_reapply : forall g g' (c : @cfg comp),
   snd (assert_applies ceqb rmatch g' (fst (assert_applies ceqb rmatch g c))) = snd (assert_applies ceqb rmatch g' c).
 Proof. exact (reapply_same ceqb rmatch). Qed.
+
+(* an evaluation leaves the rule object exactly as it was: the 'anything' alias is rewritten for the evaluation only *)
+Theorem C15_rule_object_unchanged : forall g (c : @cfg comp), fst (assert_applies ceqb rmatch g c) = c.
+Proof. exact (fst_assert_applies ceqb rmatch). Qed.
 End C15.
 
 Print Assumptions C15_order_independent.
 Print Assumptions C15_class_order_independent.
 Print Assumptions C15_query_order_independent.
 Print Assumptions C15_reapply.
+Print Assumptions C15_rule_object_unchanged.
 
-(* non-vacuity: an 'anything' rule evaluated twice; the rewritten configuration differs from the original *)
+(* non-vacuity: an 'anything' rule evaluated twice on a graph where it fails; the rule object is unchanged and fails again *)
 Open Scope N_scope.
 Example C15_example :
   let g := {| nodes := [[1]; [1;2]; [1;3]]; imps := [([1;2], [1;3])] |} in
   let c := any_cfg true [UNamed [1;2]] in
-  fst (assert_applies N.eqb (fun _ _ => false) g c) <> c /\
+  fst (assert_applies N.eqb (fun _ _ => false) g c) = c /\
+  snd (assert_applies N.eqb (fun _ _ => false) g c) <> Pass /\
   snd (assert_applies N.eqb (fun _ _ => false) g (fst (assert_applies N.eqb (fun _ _ => false) g c)))
     = snd (assert_applies N.eqb (fun _ _ => false) g c).
-Proof. split; [vm_compute; discriminate|vm_compute; reflexivity]. Qed.
+Proof. split; [vm_compute; reflexivity|split; [vm_compute; discriminate|vm_compute; reflexivity]]. Qed.
